@@ -197,6 +197,10 @@ func Run(w *core.WorkerCtx, k int, prop string) *core.CaseResult {
 	}
 	if prop == "C01" {
 		workload, fault = "steady", "restart-coordinator+watch"
+		if k%2 == 1 {
+			// the operator edits a setting of the job that has nothing to do with its targets and reloads
+			fault = "reload-edited-job+watch"
+		}
 	}
 	if prop == "C04" {
 		// bodies of 80-130 KB (the parsers read them in 64 KiB blocks), a process-series limit that two of them
@@ -233,6 +237,20 @@ func Run(w *core.WorkerCtx, k int, prop string) *core.CaseResult {
 			nT = 2
 			spec.Sizes[nT] = [2]int{200, 6500 + r.Intn(200)}
 			nT++
+		}
+		if k%4 == 2 {
+			// the collect[] param arrives with a RELOAD, together with a new target that exceeds the limit only with
+			// both collectors: its probe has to be made under the configuration now in force
+			for i := 2; i < nT; i++ {
+				delete(spec.Sizes, i)
+			}
+			nT = 2
+			workload = "params-by-reload"
+			for i := 0; i < nT; i++ {
+				// small enough that both still fit one shard when the collectors add 2 x 700 to each
+				kept := 300 + r.Intn(900)
+				spec.Sizes[i] = [2]int{kept, 1500 + r.Intn(400) - kept}
+			}
 		}
 		spec.Sizes[nT] = [2]int{100, 8000 + r.Intn(2000)}
 		nT++
@@ -356,6 +374,26 @@ func Run(w *core.WorkerCtx, k int, prop string) *core.CaseResult {
 		}
 		l.SetDown(downID, false)
 		note("target %d serves again", downID)
+	case "params-by-reload":
+		l.SetCollect(700)
+		if err := l.Reconfigure(map[int][2]int{next: {200, 6500 + r.Intn(200)}}, nil); err != nil {
+			res.Inconcl = err.Error()
+			return finish()
+		}
+		note("reload: the job gets collect[] = [cpu, mem] (700 samples each, for every target) and target %d (6700-6900 samples without the collectors) is added", next)
+		res.AddStat("real_loop_reloads_that_change_the_job_params", 1)
+		// the new target reaches the coordinator with the discovery manager's next tick (5 s); wait until it has been
+		// probed, and a dozen cycles more, before the converged state is looked for
+		c0 := l.Cycles()
+		for l.Hits(next) == 0 && l.Cycles() < c0+100 && time.Now().Before(watchdog) {
+			l.ScrapeAll()
+			time.Sleep(50 * time.Millisecond)
+		}
+		c1 := l.Cycles()
+		for l.Cycles() < c1+12 && time.Now().Before(watchdog) {
+			l.ScrapeAll()
+			time.Sleep(50 * time.Millisecond)
+		}
 	case "late-add":
 		for l.CoordinatorUptime() < l.InitTimeout()+3*time.Second && time.Now().Before(watchdog) {
 			l.ScrapeAll()
@@ -486,6 +524,53 @@ func Run(w *core.WorkerCtx, k int, prop string) *core.CaseResult {
 			return finish()
 		}
 		note("file mode: configuration rolled out (target %d removed, target %d added) while the Prometheus of shard %d answered 500 to /-/reload; it is fine again afterwards", gone, next, victim)
+	case "reload-edited-job+watch":
+		snap0, err := l.Snapshot()
+		if err != nil {
+			res.Inconcl = "snapshot: " + err.Error()
+			return finish()
+		}
+		held := map[int]bool{}
+		for _, m := range snap0 {
+			for id := range m {
+				if id >= 0 {
+					held[id] = true
+				}
+			}
+		}
+		l.EditGlobalInterval("30s")
+		if err := l.Reconfigure(nil, nil); err != nil {
+			res.Inconcl = err.Error()
+			return finish()
+		}
+		note("global scrape_interval 15s -> 30s and a reload of the coordinator; %d targets are listed by the shards", len(held))
+		c0 := l.Cycles()
+		for l.Cycles() < c0+50 { // more than the discovery manager's 5 s tick at 150 ms per cycle
+			if time.Now().After(watchdog) {
+				res.Inconcl = fmt.Sprintf("watchdog: %d cycles after the reload seen", l.Cycles()-c0)
+				return finish()
+			}
+			snap, err := l.Snapshot()
+			if err != nil {
+				res.Inconcl = "snapshot: " + err.Error()
+				return finish()
+			}
+			res.AddStat("real_loop_snapshots_after_a_reload_of_an_edited_job", 1)
+			for id := range held {
+				on := false
+				for _, m := range snap {
+					if _, ok := m[id]; ok {
+						on = true
+					}
+				}
+				if !on {
+					res.Violate("C01/real-loop/orphaned-after-reload", "target %d was listed by a shard when the coordinator reloaded a configuration in which only the global scrape_interval changed; %d cycle(s) later no shard lists it (snapshot: %s)", id, l.Cycles()-c0, snapKey(snap))
+					return finish()
+				}
+			}
+			l.ScrapeAll()
+			time.Sleep(20 * time.Millisecond)
+		}
 	case "restart-coordinator+watch":
 		// C01 on the real binaries: the coordinator process restarts while the sidecars keep their targets and the
 		// configuration is unchanged; from then on every snapshot must show every target on some shard
